@@ -32,6 +32,15 @@ CHANGE = {
  'C12b': ("martian/core/resource_semaphore.go UpdateFreeUsed", "sign error in the over-use adjustment: observed usage above the reservation raises the reservable size above the configured limit"),
  'C13b': ("martian/core/post_process.go copyOutSymlink", "later hops of a relative symlink chain are resolved against the directory of the first link: the path recorded in the final _outs does not exist"),
  'C14b': ("martian/core/storage.go Fork.partialVdrKill", "a Disabled consumer no longer counts as finished: files of a volatile producer whose only consumer was disabled at run time are never reclaimed"),
+ 'C07b': ("martian/syntax/collection_types.go ArrayType.IsAssignableFrom", "array depth check != became <: a deeper array (map<T[][]> for map<T[]>, split T[][][] for T[]) is accepted and fails or mis-delivers at run time"),
+ 'C08b': ("martian/syntax/tokenizer.go tokStringRule", "1- and 2-digit octal escapes are lexed as strings; unquoteBytes then reads past the end of a string ending in such an escape and panics"),
+ 'C09b': ("martian/syntax/format_callable.go BindStms.format", "the synthetic bindings a wildcard expands to are printed after '*': the include-expanded rendering (_mrosource) no longer parses"),
+ 'C10b': ("martian/syntax/fix_includes.go fixIncludes", "the include comparator lost its antisymmetry branch: mro format --includes orders newly added includes from different directories by map iteration order"),
+ 'C15b': ("martian/syntax/equivalence.go Modifiers.EquivalentTo", "the 'old side had disabled' check only runs when the new call has no modifiers at all: deleting disabled= next to another modifier is accepted on re-attach"),
+ 'C16b': ("martian/core/runtime.go convertToExp", "an empty array assembled at run time (projection / merged map-call output) becomes null instead of [] in the per-fork _invocation"),
+ 'C17b': ("martian/syntax/collection_types.go TypedMapType.FilterJson", "map keys are re-serialised with strconv.Quote: keys with control characters give malformed JSON when a value is actually filtered"),
+ 'C18b': ("martian/core/shell_quote.go appendShellSafeQuote", "'!' is escaped as \\! although a backslash before ! is kept literally inside double quotes"),
+ 'C19b': ("martian/syntax/refactoring/rename_output_param.go updatePipelineRetain.update", "pipeline retain entries are matched by call id only: renaming an output that is not the first retained one of its call overwrites the first entry"),
  'C19a': ("martian/syntax/refactoring/rename_callable.go updateRef", "projection references are matched by name prefix: renaming output 'res' also rewrites CALL.res_alt.a"),
 }
 matrix = collections.defaultdict(list)
